@@ -1127,10 +1127,9 @@ tp_shutdown(tp_p tp) {
 
 	if (NULL == tp)
 		return;
-	if (0 != tp->shutdown)
+	/* Atomic test and set: concurrent callers must not both do shutdown. */
+	if (0 != __sync_fetch_and_add(&tp->shutdown, 1))
 		return;
-	LCB_VERIF_POINT("tp_shutdown:after-test");
-	tp->shutdown ++;
 	LCB_VERIF_POINT("tp_shutdown:after-inc");
 	/* Private virtual thread. */
 	tp->pvt->state = TP_THREAD_STATE_STOP;
